@@ -5,10 +5,6 @@ from __future__ import annotations
 def classify(name, case, msg):
     op = case.get("op", name) if isinstance(case, dict) else name
     base = op.split("[")[0]
-    # F-diag-fill: diagonal / diagonalize build COO(coords, data, shape) with neither a guard nor fill_value=
-    # (region = ExcludedDrops of Props/C07: exactly these two functions), failure = a silently wrong answer for a nonzero fill
-    if base in ("diagonal", "diagonalize") and msg.startswith("silent:") and case.get("fill") not in ("0", "-0.0", "False"):
-        return "F-diag-fill"
     # F-sum-nonfinite-fill: reductions with np.add add `fill * (number of unstored elements of the lane)`; for a lane without
     # unstored elements and a fill in {NaN, +inf, -inf} that is fill * 0 = NaN.  Region: add-reductions over an axis, non-finite
     # fill, the answer is NaN exactly in such lanes and right everywhere else (checked on the case by the harness).
